@@ -30,12 +30,19 @@ import (
 // EHNode is one statement of an EH program.
 type EHNode struct {
 	// Kind: mark, try, throw, div0, index, defer, deferclosure, deferrecover,
-	// panic, return, call, loop, break, continue
-	Kind  string   `json:"k"`
-	N     int      `json:"n,omitempty"`     // marker number / callee index / loop count
-	At    int      `json:"at,omitempty"`    // loop: iteration at which the guarded statement fires
-	Body  []EHNode `json:"body,omitempty"`  // try body / loop body
-	Catch []EHNode `json:"catch,omitempty"` // catch body
+	// panic, return, call, loop, break, continue, switch, continueouter
+	//
+	// switch: a tagless switch whose executed clause is Body; N == 0 puts it
+	// in a case clause, N == 1 in the default clause. A bare break inside it
+	// leaves the switch only; continue goes to the enclosing loop.
+	// continueouter: "continue L" from an inner loop to the loop that directly
+	// encloses it (that loop carries a label, Labeled).
+	Kind    string   `json:"k"`
+	Labeled bool     `json:"lab,omitempty"`
+	N       int      `json:"n,omitempty"`     // marker number / callee index / loop count / switch clause
+	At      int      `json:"at,omitempty"`    // loop: iteration at which the guarded statement fires
+	Body    []EHNode `json:"body,omitempty"`  // try body / loop body
+	Catch   []EHNode `json:"catch,omitempty"` // catch body
 }
 
 // EHProgram is a list of functions; function 0 is the entry point.
@@ -79,8 +86,8 @@ func (g *ehGen) stmts(c ehCtx, n int) []EHNode {
 }
 
 func (g *ehGen) stmt(c ehCtx) []EHNode {
-	pick := rapid.IntRange(0, 13).Draw(g.t, "ehstmt")
-	if c.depth >= 3 && pick >= 4 && pick <= 6 {
+	pick := rapid.IntRange(0, 16).Draw(g.t, "ehstmt")
+	if c.depth >= 3 && ((pick >= 4 && pick <= 6) || pick == 14) {
 		pick = 0
 	}
 	switch pick {
@@ -115,7 +122,7 @@ func (g *ehGen) stmt(c ehCtx) []EHNode {
 		c2.topLevel = false
 		n := rapid.IntRange(1, 3).Draw(g.t, "loopn")
 		body := g.stmts(c2, rapid.IntRange(1, 3).Draw(g.t, "looplen"))
-		return []EHNode{{Kind: "loop", N: n, Body: body}}
+		return []EHNode{{Kind: "loop", N: n, Body: body, Labeled: targetsOuter(body)}}
 	case 7: // break / continue at a given iteration
 		if c.inLoop == 0 {
 			return []EHNode{g.mark()}
@@ -159,6 +166,39 @@ func (g *ehGen) stmt(c ehCtx) []EHNode {
 		*c.anyPanic = true
 		g.marker++
 		return []EHNode{{Kind: "panic", N: g.marker}}
+	case 14: // tagless switch; the executed clause is a case or the default
+		c2 := c
+		c2.depth++
+		c2.topLevel = false
+		body := g.stmts(c2, rapid.IntRange(1, 3).Draw(g.t, "switchlen"))
+		return []EHNode{{Kind: "switch", N: rapid.IntRange(0, 1).Draw(g.t, "clause"), Body: body}}
+	case 15, 16: // continue the loop that encloses the current loop
+		if c.inLoop < 2 {
+			return []EHNode{g.mark()}
+		}
+		return []EHNode{{Kind: "continueouter", At: rapid.IntRange(0, 2).Draw(g.t, "coat")}}
+	case 13: // a continue that leaves a try through a switch or an inner loop, then an error
+		// try { loop { try { switch|loop { M; continue; M } } catch { M } M }; error } catch { M }
+		// The continue passes control out of the inner try without running
+		// to its end; the error raised afterwards belongs to the outer try.
+		if c.depth >= 2 {
+			return []EHNode{g.mark()}
+		}
+		at := rapid.IntRange(0, 1).Draw(g.t, "tplat")
+		// the try sits between the loop that is continued and the switch or
+		// inner loop the continue statement is written in
+		var jump EHNode
+		if rapid.Bool().Draw(g.t, "tplswitch") {
+			jump = EHNode{Kind: "switch", N: rapid.IntRange(0, 1).Draw(g.t, "tplclause"), Body: []EHNode{g.mark(), {Kind: "continue", At: at}, g.mark()}}
+		} else {
+			jump = EHNode{Kind: "loop", N: 2, Body: []EHNode{g.mark(), {Kind: "continueouter", At: at}, g.mark()}}
+		}
+		wrapped := EHNode{Kind: "try", Body: []EHNode{g.mark(), jump, g.mark()}, Catch: []EHNode{g.mark()}}
+		loop := EHNode{Kind: "loop", N: rapid.IntRange(2, 3).Draw(g.t, "tpln"), Body: []EHNode{wrapped, g.mark()}}
+		loop.Labeled = targetsOuter(loop.Body)
+		g.marker++
+		raise := EHNode{Kind: rapid.SampledFrom([]string{"throw", "div0", "index"}).Draw(g.t, "tplerr"), N: g.marker}
+		return []EHNode{{Kind: "try", Body: []EHNode{loop, g.mark(), raise, g.mark()}, Catch: []EHNode{g.mark()}}}
 	case 12: // return
 		if c.fn == 0 && c.topLevel {
 			return []EHNode{g.mark()}
@@ -167,6 +207,37 @@ func (g *ehGen) stmt(c ehCtx) []EHNode {
 	default:
 		return []EHNode{g.mark()}
 	}
+}
+
+// targetsOuter reports whether the body of a loop contains, inside a directly
+// nested loop (through any try or switch, but no further loop), a
+// continueouter statement: that statement names this loop's label.
+func targetsOuter(body []EHNode) bool {
+	var walk func(nodes []EHNode, loops int) bool
+	walk = func(nodes []EHNode, loops int) bool {
+		for _, n := range nodes {
+			switch n.Kind {
+			case "continueouter":
+				if loops == 1 {
+					return true
+				}
+			case "loop":
+				if loops == 0 && walk(n.Body, 1) {
+					return true
+				}
+			case "try":
+				if walk(n.Body, loops) || walk(n.Catch, loops) {
+					return true
+				}
+			case "switch":
+				if walk(n.Body, loops) {
+					return true
+				}
+			}
+		}
+		return false
+	}
+	return walk(body, 0)
 }
 
 // EHGen draws an EH program.
@@ -203,6 +274,7 @@ func EHGen(t *rapid.T) EHProgram {
 func (p EHProgram) Render() string {
 	var b strings.Builder
 	ctr := 0
+	var labels []string // label of each enclosing loop ("" when it has none), innermost last
 	var emit func(nodes []EHNode, ind string, loopVar string)
 	emit = func(nodes []EHNode, ind string, loopVar string) {
 		for _, n := range nodes {
@@ -228,9 +300,32 @@ func (p EHProgram) Render() string {
 			case "loop":
 				ctr++
 				lv := fmt.Sprintf("i%d", ctr)
+				label := ""
+				if n.Labeled {
+					label = fmt.Sprintf("L%d", ctr)
+					fmt.Fprintf(&b, "%s%s:\n", ind, label)
+				}
 				fmt.Fprintf(&b, "%sfor %s := 0; %s < %d; %s++ {\n", ind, lv, lv, n.N, lv)
+				labels = append(labels, label)
 				emit(n.Body, ind+"\t", lv)
+				labels = labels[:len(labels)-1]
 				fmt.Fprintf(&b, "%s}\n", ind)
+			case "switch":
+				fmt.Fprintf(&b, "%sswitch {\n", ind)
+				if n.N == 0 {
+					fmt.Fprintf(&b, "%scase len(\"a\") == 1:\n", ind)
+					emit(n.Body, ind+"\t", loopVar)
+					fmt.Fprintf(&b, "%sdefault:\n%s\tfmt.Printf(\"U\\n\")\n", ind, ind)
+				} else {
+					fmt.Fprintf(&b, "%scase len(\"a\") == 2:\n%s\tfmt.Printf(\"U\\n\")\n", ind, ind)
+					fmt.Fprintf(&b, "%sdefault:\n", ind)
+					emit(n.Body, ind+"\t", loopVar)
+				}
+				fmt.Fprintf(&b, "%s}\n", ind)
+			case "continueouter":
+				if len(labels) >= 2 && labels[len(labels)-2] != "" {
+					fmt.Fprintf(&b, "%sif %s == %d {\n%s\tcontinue %s\n%s}\n", ind, loopVar, n.At, ind, labels[len(labels)-2], ind)
+				}
 			case "break", "continue":
 				fmt.Fprintf(&b, "%sif %s == %d {\n%s\t%s\n%s}\n", ind, loopVar, n.At, ind, n.Kind, ind)
 			case "call":
@@ -266,6 +361,7 @@ type ehPanic struct{ n int }
 type ehReturn struct{}
 type ehBreak struct{}
 type ehContinue struct{}
+type ehContinueOuter struct{}
 
 // EHResult is what the reference interpreter predicts.
 type EHResult struct {
@@ -320,6 +416,10 @@ func (p EHProgram) Interp() (res EHResult) {
 									case ehBreak:
 										brk = true
 									case ehContinue:
+									case ehContinueOuter:
+										// leaves this loop; the enclosing loop
+										// goes on with its next iteration
+										panic(ehContinue{})
 									default:
 										panic(r)
 									}
@@ -340,6 +440,22 @@ func (p EHProgram) Interp() (res EHResult) {
 				if iter == n.At {
 					panic(ehContinue{})
 				}
+			case "continueouter":
+				if iter == n.At {
+					panic(ehContinueOuter{})
+				}
+			case "switch":
+				func() {
+					defer func() {
+						if r := recover(); r != nil {
+							if _, ok := r.(ehBreak); ok {
+								return // a bare break leaves the switch
+							}
+							panic(r)
+						}
+					}()
+					exec(n.Body, defers, iter)
+				}()
 			case "call":
 				call(n.N)
 			case "defer", "deferclosure", "deferrecover":
@@ -417,7 +533,7 @@ func (p EHProgram) Stats() (maxDepth int, crossFn bool, deferWithPanic bool, kin
 			case "try":
 				walk(n.Body, d+1, true)
 				walk(n.Catch, d+1, inTry)
-			case "loop":
+			case "loop", "switch":
 				walk(n.Body, d+1, inTry)
 			case "call":
 				if inTry {
